@@ -46,6 +46,11 @@ func (p propSpec) Deadline(tier int) time.Duration { return p.DeadlineT[tier] }
 const techSX = "symbolic execution of the real code's go/ssa (GoSX) with SMT (z3) deciding every branch and assertion over all values of the symbolic inputs within the stated bounds; counterexamples replayed natively"
 
 var properties = map[string]propSpec{
+	"C17": {
+		Level: "model_checking", Technique: techSX,
+		Bounds:  [2]string{"containers of 0..2 elements ([]T, named slice, [2]T, []*T, map[string]T, map[int]T, map[namedString]*T) whose elements' outcomes are free (true/false/error); nil filter; 7 non-container inputs incl. nil; idempotence; E / not(E) partition", "containers of 0..3 elements"},
+		Outside: "containers longer than the bound; element types other than the struct family used",
+	},
 	"C14": {
 		Level: "model_checking", Technique: techSX + "; map iteration order is a nondeterministic choice explored exhaustively (n! orders per MapKeys/range)",
 		Bounds:  [2]string{"maps of 2..3 entries (element: symbolic int8 / string / erroring slice); every pair of iteration orders at every MapKeys/range (36 per map of 3); 5 quantifier templates, Filter.Execute over maps, selector lookups", "maps of 2..4 entries (576 order pairs per map of 4)"},
